@@ -476,67 +476,152 @@ Section Run.
     | IFail => PFail | IFatal => PFatal | IRaise e => PRaise e | IOutOfFuel => POutOfFuel
     end.
 
+  (* what happens after parseImpl succeeded: wrap the tokens, run the parse actions (the position is p' whatever they do) *)
+  Definition finish_with (doact : bool) (a : pattrs) (loc : nat) (p' : pos) (x : raw) (eff : list pyv) : outcome :=
+    let r := wrap x (a_rname a) (a_save_as_list a) (a_modal a) in
+    match a_actions a with
+    | [] => POk p' r eff
+    | acts =>
+        if doact then
+          (fix go (l : list N) (r : pr) (eff : list pyv) : outcome :=
+             match l with
+             | [] => POk p' r eff
+             | fn :: rest =>
+                 match act fn src loc r with
+                 | ARNone => go rest r eff
+                 | AREffect v => go rest r (eff ++ [v])
+                 | ARVal v =>
+                     let aslist := a_save_as_list a && match v with PVList _ => true | _ => false end in
+                     go rest (wrap (RVal v) (a_rname a) aslist (a_modal a)) eff
+                 | ARRaise ex => PRaise ex
+                 | ARParseFail => PFail         (* IndexError inside an action becomes a ParseException *)
+                 end
+             end) acts r eff
+        else POk p' r eff
+    end.
+
+  (* the loops of the combinators, parametrised by the recursive call [sub e p callpre] and by [finish] *)
+  Fixpoint and_loop (sub : pexpr -> pos -> bool -> outcome) (finish : pos -> raw -> list pyv -> outcome)
+           (l : list pitem) (pc : pos) (acc : pr) (eff : list pyv) (stop : bool) : outcome :=
+    match l with
+    | [] => finish pc (RRes acc) eff
+    | IErrorStop :: l' => and_loop sub finish l' pc acc eff true
+    | IElem ei :: l' =>
+        match sub ei pc true with
+        | POk p2 r2 eff2 => and_loop sub finish l' p2 (pr_iadd acc r2) (eff ++ eff2) stop
+        | PFail => if stop then PFatal else PFail
+        | o => o
+        end
+    end.
+
+  Fixpoint first_loop (sub : pexpr -> pos -> bool -> outcome) (finish : pos -> raw -> list pyv -> outcome)
+           (pre : pos) (l : list pexpr) : outcome :=
+    match l with
+    | [] => PFail
+    | ei :: l' =>
+        match sub ei pre true with
+        | POk p2 r2 eff2 => finish p2 (RRes r2) eff2
+        | PFail => first_loop sub finish pre l'
+        | o => o
+        end
+    end.
+
+  Fixpoint rep_loop (sub : pexpr -> pos -> bool -> outcome) (finish : pos -> raw -> list pyv -> outcome)
+           (e1 : pexpr) (n : nat) (pc : pos) (acc : pr) (eff : list pyv) : outcome :=
+    match n with
+    | O => POutOfFuel
+    | S n' =>
+        match sub e1 pc true with
+        | POk p2 r2 eff2 => rep_loop sub finish e1 n' p2 (pr_iadd acc r2) (eff ++ eff2)
+        | PFail => finish pc (RRes acc) eff
+        | o => o
+        end
+    end.
+
+  Fixpoint skip_scan (sub subq : pexpr -> pos -> bool -> outcome) (finish : pos -> raw -> list pyv -> outcome)
+           (e1 : pexpr) (incl : bool) (pre : pos) (k : nat) (pc : pos) (n : nat) : outcome :=
+    match n with
+    | O => POutOfFuel
+    | S n' =>
+        if p_past pc then PFail else
+        match subq e1 pc false with
+        | POk _ _ _ =>
+            let text := firstn k (p_rest pre) in
+            if incl then
+              match sub e1 pc false with
+              | POk p2 r2 eff2 => finish p2 (RRes (pr_iadd (PR [PTStr text] [] []) r2)) eff2
+              | o => o
+              end
+            else finish pc (RRes (PR [PTStr text] [] [])) []
+        | PFail =>
+            match p_rest pc with
+            | _ :: _ => skip_scan sub subq finish e1 incl pre (S k) (advance 1 pc) n'
+            | [] => PFail
+            end
+        | PFatal => PFatal
+        | o => o
+        end
+    end.
+
+  (* Or: after the trial pass, the alternatives sorted by the length they matched are run again with actions *)
+  Fixpoint or_loop (suba : pexpr -> pos -> bool -> outcome) (finish : pos -> raw -> list pyv -> outcome) (has_fatal : bool)
+           (pre2 : pos) (l : list (nat * pexpr)) (longest : option (pos * pr * list pyv)) : outcome :=
+    match l with
+    | [] => match longest with
+            | Some (p2, r2, eff2) => finish p2 (RRes r2) eff2
+            | None => if has_fatal then PFatal else PFail
+            end
+    | (loc1, e1) :: l' =>
+        let stop_here := match longest with
+                         | Some (pl, _, _) => Nat.leb loc1 (p_loc pl)
+                         | None => false
+                         end in
+        if stop_here then
+          match longest with
+          | Some (p2, r2, eff2) => finish p2 (RRes r2) eff2
+          | None => PFail
+          end
+        else
+          match suba e1 pre2 true with
+          | POk p2 r2 eff2 =>
+              if Nat.leb loc1 (p_loc p2) then finish p2 (RRes r2) eff2
+              else match longest with
+                   | Some (pl, _, _) => if Nat.ltb (p_loc pl) (p_loc p2) then or_loop suba finish has_fatal pre2 l' (Some (p2, r2, eff2))
+                                        else or_loop suba finish has_fatal pre2 l' longest
+                   | None => or_loop suba finish has_fatal pre2 l' (Some (p2, r2, eff2))
+                   end
+          | PFail => or_loop suba finish has_fatal pre2 l' longest
+          | o => o
+          end
+    end.
+
+  Definition sort_matches (matches : list (nat * pexpr)) : list (nat * pexpr) :=
+    fold_right (fun x acc =>
+                  (fix ins (l : list (nat * pexpr)) :=
+                     match l with
+                     | [] => [x]
+                     | y :: r => if Nat.leb (fst y) (fst x) then x :: l else y :: ins r
+                     end) acc) [] matches.
+
   Fixpoint run (fuel : nat) (doact : bool) (e : pexpr) (p : pos) (callpre : bool) {struct fuel} : outcome :=
     match fuel with
     | O => POutOfFuel
     | S f =>
       let a := e_attrs e in
       let pre := if callpre && a_call_preparse a then preparse a p else p in
-      let finish (p' : pos) (x : raw) (eff : list pyv) : outcome :=
-        let r := wrap x (a_rname a) (a_save_as_list a) (a_modal a) in
-        match a_actions a with
-        | [] => POk p' r eff
-        | acts =>
-            if doact then
-              (fix go (l : list N) (r : pr) (eff : list pyv) : outcome :=
-                 match l with
-                 | [] => POk p' r eff
-                 | fn :: rest =>
-                     match act fn src (p_loc pre) r with
-                     | ARNone => go rest r eff
-                     | AREffect v => go rest r (eff ++ [v])
-                     | ARVal v =>
-                         let aslist := a_save_as_list a && match v with PVList _ => true | _ => false end in
-                         go rest (wrap (RVal v) (a_rname a) aslist (a_modal a)) eff
-                     | ARRaise ex => PRaise ex
-                     | ARParseFail => PFail         (* IndexError inside an action becomes a ParseException *)
-                     end
-                 end) acts r eff
-            else POk p' r eff
-        end in
-      let sub (e' : pexpr) (p' : pos) (cp : bool) := run f doact e' p' cp in
+      let finish := finish_with doact a (p_loc pre) in
+      let sub := run f doact in
       match e_core e with
       | PAnd items =>
           match items with
           | IElem e0 :: rest =>
-              match run f doact e0 pre false with
-              | POk p1 r1 eff1 =>
-                  (fix go (l : list pitem) (pc : pos) (acc : pr) (eff : list pyv) (stop : bool) : outcome :=
-                     match l with
-                     | [] => finish pc (RRes acc) eff
-                     | IErrorStop :: l' => go l' pc acc eff true
-                     | IElem ei :: l' =>
-                         match run f doact ei pc true with
-                         | POk p2 r2 eff2 => go l' p2 (pr_iadd acc r2) (eff ++ eff2) stop
-                         | PFail => if stop then PFatal else PFail
-                         | o => o
-                         end
-                     end) rest p1 r1 eff1 false
+              match sub e0 pre false with
+              | POk p1 r1 eff1 => and_loop sub finish rest p1 r1 eff1 false
               | o => o
               end
           | _ => PFail
           end
-      | PMatchFirst es =>
-          (fix go (l : list pexpr) : outcome :=
-             match l with
-             | [] => PFail
-             | ei :: l' =>
-                 match run f doact ei pre true with
-                 | POk p2 r2 eff2 => finish p2 (RRes r2) eff2
-                 | PFail => go l'
-                 | o => o
-                 end
-             end) es
+      | PMatchFirst es => first_loop sub finish pre es
       | POr es =>
           let pre2 := if forallb (fun ei => a_call_preparse (e_attrs ei)) es then preparse a pre else pre in
           (* try every alternative without actions *)
@@ -547,13 +632,7 @@ Section Run.
           | None =>
             let matches := flat_map (fun t => match snd t with POk p2 _ _ => [(p_loc p2, fst t)] | _ => [] end) tries in
             let has_fatal := existsb (fun t => match snd t with PFatal => true | _ => false end) tries in
-            let sorted := fold_right (fun x acc =>
-                              (fix ins (l : list (nat * pexpr)) :=
-                                 match l with
-                                 | [] => [x]
-                                 | y :: r => if Nat.leb (fst y) (fst x) then x :: l else y :: ins r
-                                 end) acc) [] matches in
-            match sorted with
+            match sort_matches matches with
             | [] => if has_fatal then PFatal else PFail
             | (_, best) :: _ =>
                 if negb doact then
@@ -561,86 +640,25 @@ Section Run.
                   | POk p2 r2 eff2 => finish p2 (RRes r2) eff2
                   | o => o
                   end
-                else
-                  (fix go (l : list (nat * pexpr)) (longest : option (pos * pr * list pyv)) : outcome :=
-                     match l with
-                     | [] => match longest with
-                             | Some (p2, r2, eff2) => finish p2 (RRes r2) eff2
-                             | None => if has_fatal then PFatal else PFail
-                             end
-                     | (loc1, e1) :: l' =>
-                         let stop_here := match longest with
-                                          | Some (pl, _, _) => Nat.leb loc1 (p_loc pl)
-                                          | None => false
-                                          end in
-                         if stop_here then
-                           match longest with
-                           | Some (p2, r2, eff2) => finish p2 (RRes r2) eff2
-                           | None => PFail
-                           end
-                         else
-                           match run f true e1 pre2 true with
-                           | POk p2 r2 eff2 =>
-                               if Nat.leb loc1 (p_loc p2) then finish p2 (RRes r2) eff2
-                               else match longest with
-                                    | Some (pl, _, _) => if Nat.ltb (p_loc pl) (p_loc p2) then go l' (Some (p2, r2, eff2)) else go l' longest
-                                    | None => go l' (Some (p2, r2, eff2))
-                                    end
-                           | PFail => go l' longest
-                           | o => o
-                           end
-                     end) sorted None
+                else or_loop (run f true) finish has_fatal pre2 (sort_matches matches) None
             end
           end
       | PZeroOrMore e1 | POneOrMore e1 =>
           let zero := match e_core e with PZeroOrMore _ => true | _ => false end in
-          match run f doact e1 pre true with
-          | POk p1 r1 eff1 =>
-              (fix loop (n : nat) (pc : pos) (acc : pr) (eff : list pyv) : outcome :=
-                 match n with
-                 | O => POutOfFuel
-                 | S n' =>
-                     match run f doact e1 pc true with
-                     | POk p2 r2 eff2 => loop n' p2 (pr_iadd acc r2) (eff ++ eff2)
-                     | PFail => finish pc (RRes acc) eff
-                     | o => o
-                     end
-                 end) f p1 r1 eff1
+          match sub e1 pre true with
+          | POk p1 r1 eff1 => rep_loop sub finish e1 f p1 r1 eff1
           | PFail => if zero then finish pre (RRes (wrap REmptyList (a_rname a) true true)) [] else PFail
           | o => o
           end
       | POpt e1 =>
-          match run f doact e1 pre false with
+          match sub e1 pre false with
           | POk p1 r1 eff1 => finish p1 (RRes r1) eff1
           | PFail => finish pre REmptyList []
           | o => o
           end
-      | PSkipTo e1 incl =>
-          (fix scan (k : nat) (pc : pos) (n : nat) : outcome :=
-             match n with
-             | O => POutOfFuel
-             | S n' =>
-                 if p_past pc then PFail else
-                 match run f false e1 pc false with
-                 | POk _ _ _ =>
-                     let text := firstn k (p_rest pre) in
-                     if incl then
-                       match run f doact e1 pc false with
-                       | POk p2 r2 eff2 => finish p2 (RRes (pr_iadd (PR [PTStr text] [] []) r2)) eff2
-                       | o => o
-                       end
-                     else finish pc (RRes (PR [PTStr text] [] [])) []
-                 | PFail =>
-                     match p_rest pc with
-                     | _ :: _ => scan (S k) (advance 1 pc) n'
-                     | [] => PFail
-                     end
-                 | PFatal => PFatal
-                 | o => o
-                 end
-             end) 0 pre (S (S (length (p_rest pre))))
+      | PSkipTo e1 incl => skip_scan sub (run f false) finish e1 incl pre 0 pre (S (S (length (p_rest pre))))
       | PCombine e1 js =>
-          match run f doact e1 pre false with
+          match sub e1 pre false with
           | POk p1 r1 eff1 =>
               match as_string_list r1 js with
               | Some s =>
@@ -654,18 +672,18 @@ Section Run.
           | o => o
           end
       | PSuppress e1 =>
-          match run f doact e1 pre false with
+          match sub e1 pre false with
           | POk p1 _ eff1 => finish p1 REmptyList eff1
           | o => o
           end
       | PGroup e1 =>
-          match run f doact e1 pre false with
+          match sub e1 pre false with
           | POk p1 r1 eff1 => finish p1 (RListOfRes r1) eff1
           | o => o
           end
       | PForward id =>
           match env id with
-          | Some e1 => match run f doact e1 pre false with
+          | Some e1 => match sub e1 pre false with
                        | POk p1 r1 eff1 => finish p1 (RRes r1) eff1
                        | o => o
                        end
@@ -673,11 +691,10 @@ Section Run.
           end
       | POrigText e1 =>
           (* And [locMarker; expr; endlocMarker (no preparse)] with the extractText action *)
-          let start := pre in
-          match run f doact e1 start true with
+          match sub e1 pre true with
           | POk p1 _ eff1 =>
-              let n := p_loc p1 - p_loc start in
-              finish p1 (RVal (PVStr (firstn n (p_rest start)))) eff1
+              let n := p_loc p1 - p_loc pre in
+              finish p1 (RVal (PVStr (firstn n (p_rest pre)))) eff1
           | o => o
           end
       | PNotAny e1 =>
@@ -687,7 +704,7 @@ Section Run.
           | o => o
           end
       | PFollowedBy e1 =>
-          match run f doact e1 pre true with
+          match sub e1 pre true with
           | POk _ r1 eff1 => finish pre (RRes (PR [] (pr_named r1) (pr_alln r1))) eff1
           | o => o
           end
